@@ -30,7 +30,7 @@ class Mon(LifeCounting):
                 M = cl[0].get("mailbox")
                 key = (g.app, msg.get("nameplate"))
                 pre = self._pre_np.get(key)
-                new_inc = pre is None or (bool(pre[1]) and pre[1] <= pre[2]) or key not in self.cur
+                new_inc = key not in self.cur
                 if not isinstance(M, str) or not M:
                     out.append(self.V("claimed-without-mailbox-id", {"step": r.brief()}))
                 elif new_inc:
@@ -57,12 +57,33 @@ class Mon(LifeCounting):
         return out
 
     def _forget_dead(self, r):
-        # incarnations that ended (row gone): the next claim starts a new one
-        for key, rec in self.ended_np:
-            self.cur.pop(key, None)
-        if r.after is not None:
-            live = set((x["app_id"], x["name"]) for x in r.after["nameplates"])
-            for key in [k for k in self.cur if k not in live]:
+        """An incarnation ends (the next claim may - must - get a fresh id) when every side that claimed has
+        released (ghost), or when the nameplate row is gone together with its mailbox (last close, expiry).
+        A nameplate row that vanishes while somebody holds it and its mailbox lives on does NOT end it."""
+        if r.after is None:
+            return
+        live_np = set((x["app_id"], x["name"]) for x in r.after["nameplates"])
+        live_mb = set((x["app_id"], x["id"]) for x in r.after["mailboxes"])
+        for key in list(self.cur):
+            rec = self.np.get(key)
+            pre = self._pre_np.get(key) if hasattr(self, "_pre_np") else None
+            all_released = False
+            for cand in (rec, None):
+                pass
+            if rec is not None and rec["attempted"] and rec["attempted"] <= rec["released"]:
+                all_released = True
+            elif rec is None and pre is not None:
+                # the ghost record was dropped with the row in this step: decide from the step itself
+                released_now = set(pre[2])
+                m = (r.extra.get("msg") or {}) if r.kind == "cmd" else {}
+                if m.get("type") == "release" and r.exc is None:
+                    g = self.conns.get(r.ev[1])
+                    if g is not None:
+                        released_now.add(g.side)
+                all_released = bool(pre[1]) and set(pre[1]) <= released_now
+            if all_released:
+                self.cur.pop(key)
+            elif key not in live_np and ((key[0], self.cur[key]) not in live_mb or r.kind in ("sweep", "restart")):
                 self.cur.pop(key)
 
     def ghost(self):
